@@ -102,6 +102,19 @@ class DefRuntime:
         wrapper._icv_mark = wrapper  # type: ignore   # identifies THIS wrapper even after update_wrapper copies
         return wrapper
 
+    def foreign_bare(self, fn: Any) -> Any:
+        """functools.wraps(fn, updated=()): __wrapped__, name and doc are set, the attributes of fn are NOT copied."""
+        rt = self
+
+        @functools.wraps(fn, updated=())
+        def wrapper(*args: Any, **kwargs: Any) -> Any:
+            rt.foreign_calls += 1
+            return fn(*args, **kwargs)
+
+        wrapper._icv_foreign = True  # type: ignore
+        wrapper._icv_mark = wrapper  # type: ignore
+        return wrapper
+
     def build_member(self, m: dict) -> Any:
         ic = self.ic
         kind = m["kind"]
@@ -128,6 +141,8 @@ class DefRuntime:
         for d in m["decos"]:
             if d["d"] == "foreign":
                 obj = self.foreign(obj)
+            elif d["d"] == "foreign_bare":
+                obj = self.foreign_bare(obj)
             elif d["d"] == "require":
                 obj = self.deco("require", d["c"])(obj)
             elif d["d"] == "ensure":
@@ -188,7 +203,7 @@ class DefRuntime:
             nsp["__module__"] = st.get("mod", "app.models")
             bases = tuple(self.classes[b] for b in st["bases"])
             if st["dbc"]:
-                if not bases and k % 2:
+                if not bases and (k + int(self.hist.get("hid", 0))) % 2:
                     # root classes alternate between the two documented ways: deriving from DBC, and
                     # ``class K(metaclass=icontract.DBCMeta)`` without DBC among the ancestors
                     bases = (ic.DBC,)
@@ -295,8 +310,16 @@ class DefRuntime:
             facts = self.chain_facts(k, name)
             v["members"][name] = {"kind": kind, "pre": pre, "snap": snap, "post": post, "invw": bool(invw),
                                   "nchk": facts["checkers"], "nfor": facts["foreign"],
-                                  "orig": getattr(fn, "_icv_own", -1)}
+                                  "orig": self._own_of(fn)}
         return v
+
+    @staticmethod
+    def _own_of(fn: Any) -> int:
+        """The class statement that defined the function at the bottom of the decorator stack."""
+        cur, seen = fn, 0
+        while getattr(cur, "__wrapped__", None) is not None and seen < 50:
+            cur, seen = cur.__wrapped__, seen + 1
+        return getattr(cur, "_icv_own", -1)
 
     def member_list_ids(self, k: int, name: str) -> List[int]:
         kind, fn = self.member_fn(self.classes[k], name)
